@@ -163,6 +163,24 @@ MOTIFS = [
     [["new_space", "-", "A", None, []], ["set_ref", "A", "r", 5], ["new_cells", "A", "q", C(3)],
      ["new_cells", "A", "h", C(2, a="q", k=3)], ["new_space", "-", "O", None, []], ["new_cells", "O", "f", C(1)],
      ["new_space", "O", "X", None, ["A"]], ["new_cells", "O", "g", C(5, c="X", a="h")], ["new_space", "-", "T", 3, []]],
+    # SEVERAL parametrised parents choosing the same foreign base: S[a] and T[a] are instances with equal
+    # arguments under different parents; callers elsewhere hold values computed through both
+    [["new_space", "-", "O", None, []], ["new_cells", "O", "f", C(1)], ["new_cells", "O", "g", C(2, a="f", k=1)],
+     ["set_ref", "O", "r", 4], ["new_cells", "O", "h", C(3)], ["new_space", "O", "X", None, []],
+     ["new_cells", "O.X", "q", C(1)], ["new_space", "-", "S", 3, []], ["new_space", "-", "T", 3, []],
+     ["new_space", "-", "C", None, []], ["new_cells", "C", "c", IW.CALLER_SRC.format(s="S", a="g")],
+     ["new_cells", "C", "d", IW.CALLER_SRC.format(s="T", a="h")]],
+    # nested parametrised spaces queried with EQUAL arguments at both levels (S[a].X[a]); the nested one has a
+    # replicated child of its own
+    [["new_space", "-", "S", 0, []], ["new_cells", "S", "f", C(1)], ["new_space", "S", "X", 5, []],
+     ["new_cells", "S.X", "q", C(8)], ["new_cells", "S.X", "g", C(2, a="q", k=2)], ["set_ref", "S.X", "r", 6],
+     ["new_cells", "S.X", "h", C(3)], ["new_space", "S.X", "Z", None, []], ["new_cells", "S.X.Z", "q", C(0, k=4)]],
+    # two parents (one of them with two parameters, the default equal to the other's argument) choosing a foreign
+    # base that has a parametrised child: S[a].X[a], T[a, 2].X[a]
+    [["new_space", "-", "A", None, []], ["new_cells", "A", "f", C(1)], ["new_space", "-", "O", None, ["A"]],
+     ["new_cells", "O", "g", C(2, a="f", k=2)], ["set_ref", "O", "s", 1], ["new_cells", "O", "h", C(9, k=1)],
+     ["new_space", "O", "X", 5, []], ["new_cells", "O.X", "q", C(8)],
+     ["new_space", "-", "S", 3, []], ["new_space", "-", "T", 4, []]],
 ]
 CORE_MOTIFS = [0, 1, 2, 3, 4, 5, 6]       # inside the vocabulary the Lean model covers
 
@@ -1160,9 +1178,16 @@ def instance_queries(m):
                 q.append(["item", path, chain])
             for name, ch in base.spaces.items():
                 if IW.params_of(ch):
-                    c2 = chain + [["attr", name], ["idx", [3]]]
-                    fc2 = first_cells(ch)
-                    q.append(["eval", path, c2 + [["attr", n] for n in fc2[0]], fc2[1], 1] if fc2 else ["item", path, c2])
+                    # a nested instance under the SAME argument as the outer instance (a = 1) / under another one
+                    for b in ((a,) if a == 1 else (3,)):
+                        c2 = chain + [["attr", name], ["idx", [b]]]
+                        fc2 = first_cells(ch)
+                        q.append(["eval", path, c2 + [["attr", n] for n in fc2[0]], fc2[1], 1] if fc2 else ["item", path, c2])
+    # callers in a plain space that create instances from inside their formulas hold values computed through them
+    if "C" in m.spaces:
+        for cn in m.spaces["C"].cells:
+            for a in (1, 2):
+                q.append(["evalstatic", "C", cn, a])
     return q
 
 
